@@ -469,7 +469,11 @@ func (r *runner) runOne(bi int, b *behaviour, ac arenaCfg, full bool) {
 					rec["framed"] = intsOf(fb)
 				}
 			}
-			if last || (bi+si)%dumpEvery == 0 {
+			ah := 0
+			for _, ch := range ac.Name {
+				ah += int(ch)
+			}
+			if (last && (bi+ah)%dumpLastEvery == 0) || (bi+si)%dumpEvery == 0 {
 				r.dmu.Lock()
 				r.dump.Encode(rec)
 				r.dmu.Unlock()
@@ -630,10 +634,14 @@ func (r *runner) roundTrips(bi int, ac arenaCfg, step, mi int, m *capnp.Message,
 }
 
 var dumpEvery = 1
+var dumpLastEvery = 1 // of the final states (one per behaviour and arena), every n-th is dumped for TLC
 
 func main() {
 	if n, err := strconv.Atoi(os.Getenv("VERIF_DUMP_EVERY")); err == nil && n > 0 {
 		dumpEvery = n
+	}
+	if n, err := strconv.Atoi(os.Getenv("VERIF_DUMP_LAST_EVERY")); err == nil && n > 0 {
+		dumpLastEvery = n
 	}
 	bf, err := os.Open(os.Args[2])
 	if err != nil {
